@@ -32,8 +32,8 @@ const (
 
 // tracked is one destination object after the last read that filled it.
 type tracked struct {
-	obj  *row
-	want row // deep copy: what the caller received, plus its own edits
+	obj  any // the destination object (a pointer)
+	want any // deep copy of what it points to: what the caller received, plus its own edits
 	c    *call
 }
 
@@ -131,6 +131,25 @@ func (w *world) drawTouch(c *call) {
 	if c.reuse == 0 && t.Chance(1, 4) {
 		c.prefill = true
 	}
+	w.settleDest(c)
+}
+
+// followDest: the type of the destination of a caller's next read: the object it re-uses has the type
+// it has; a fresh object is of any type.
+func (w *world) followDest(prev, n *call) {
+	if !w.typed {
+		return
+	}
+	if n.reuse != 0 {
+		n.dt = prev.dt
+		if n.dt == dLite && n.kind != rGet {
+			n.reuse = 0 // (a rowLite cannot hold what a loading read returns)
+		}
+	}
+	if n.reuse == 0 {
+		w.drawDest(n)
+	}
+	w.settleDest(n)
 }
 
 // newFollower: the next read of a caller.
@@ -210,6 +229,7 @@ func (w *world) touch(sts []*step) []*step {
 				}
 				target.readers = append(target.readers, n)
 				cur.next, cur.nextSt = n, target
+				w.followDest(cur, n)
 				cur, curSt = n, target
 			}
 		}
@@ -238,6 +258,7 @@ func (w *world) genFollowStep(e *entity, lat time.Duration) *step {
 	for _, c := range fs.readers {
 		c.cx = w.drawCtx(true, fs.qLat)
 		w.drawTouch(c)
+		w.drawDest(c)
 	}
 	if t.Chance(1, 6) {
 		fs.errLeft[qPrimary] = t.Range(1, 2)
@@ -251,7 +272,7 @@ func (w *world) genFollowStep(e *entity, lat time.Duration) *step {
 // readChain is the body of a reader task: the call, what the caller does to the object afterwards,
 // its next read.
 func (w *world) readChain(st *step, c *call) {
-	var obj *row
+	var obj any
 	var tr *tracked
 	for first := true; c != nil; first = false {
 		if !first && c.think > 0 {
@@ -259,20 +280,28 @@ func (w *world) readChain(st *step, c *call) {
 		}
 		switch {
 		case obj == nil || c.reuse == 0:
-			obj, tr = new(row), nil
+			obj, tr = newDest(c.dt), nil
 		default:
 			// the caller's own object: as the caller left it
 			w.checkObject(tr)
 			if c.reuse == 2 {
-				*obj = row{}
+				resetDest(obj)
 				w.r.Probe("destination-reused-after-reset")
 			} else {
 				w.r.Probe("destination-reused-as-it-is")
 			}
 		}
 		if c.prefill {
-			*obj = prefillRow()
+			switch p := obj.(type) {
+			case *row:
+				*p = prefillRow()
+			case *rowAlt:
+				*p = altOf(prefillRow())
+			}
 			w.r.Probe("destination-prefilled")
+		}
+		if c.dt != dRow {
+			w.r.Probe("dest-type-" + destNames[c.dt])
 		}
 		ent := st.ent
 		c.inv, c.tinv = w.tick(), time.Now()
@@ -288,7 +317,7 @@ func (w *world) readChain(st *step, c *call) {
 				tr = &tracked{obj: obj}
 				w.objs = append(w.objs, tr)
 			}
-			tr.c, tr.want = c, c.got // (c.got is a deep copy nobody writes to)
+			tr.c, tr.want = c, cloneDest(obj)
 			if c.edit != 0 {
 				switch c.editWait {
 				case 1:
@@ -297,8 +326,16 @@ func (w *world) readChain(st *step, c *call) {
 					w.r.Sleep(time.Duration(1+c.id%7) * time.Millisecond)
 				}
 				w.checkObject(tr)
-				w.applyEdits(c, obj)
-				tr.want = cloneRow(*obj)
+				switch p := obj.(type) {
+				case *row:
+					w.applyEdits(c, p)
+				case *rowAlt:
+					// the same writes through the other struct type (what is behind pointers is shared)
+					r := p.rowOf()
+					w.applyEdits(c, &r)
+					*p = altOf(r)
+				}
+				tr.want = cloneDest(obj)
 			}
 		}
 		st, c = c.nextSt, c.next
@@ -372,9 +409,9 @@ func (w *world) checkObject(tr *tracked) {
 		return
 	}
 	w.r.Probe("destination-object-checked")
-	if !reflect.DeepEqual(*tr.obj, tr.want) {
+	if now := derefDest(tr.obj); !reflect.DeepEqual(now, tr.want) {
 		w.fail("destination-changed-after-return", "call %d (%s): the object the caller received (with the caller's own edits) was %+v and now holds %+v: somebody else wrote to the caller's object after the call had returned",
-			tr.c.id, w.rn(tr.c), tr.want, *tr.obj)
+			tr.c.id, w.rn(tr.c), tr.want, now)
 	}
 }
 
